@@ -204,14 +204,19 @@ def execute(case, mode):
     out = out2 = exc = None
     outcome = 'ok'
     n = len(W)
+    cross_failed = False
     try:
         if case.get('cross'):
             pc = dict(p)
             pc.pop('hierarchy', None)
             if case['cross'] == 'community_louvain':
                 pc['B'] = {'sign': 'negative_asym'}.get(case['meta'].get('kind'), 'modularity')
-            co = call(case['cross'], Win, pc, rng, None)
-            if M.valid_partition(co[0], n) is None:
+            try:
+                co = call(case['cross'], Win, pc, rng, None)
+            except bct.BCTParamError:
+                co = None  # the helper optimiser failed: run the routine under test from its default start instead
+                cross_failed = True
+            if co is not None and M.valid_partition(co[0], n) is None:
                 start = np.array(co[0]).copy()
                 sin = start.copy()
         out = call(routine, Win, p, rng, sin)
@@ -307,6 +312,8 @@ def execute(case, mode):
         pr['feedback_runs'] = 1
     if case.get('cross') and start is not None:
         pr['cross_start_runs'] = 1
+    if cross_failed:
+        pr['cross_start_helper_failed'] = 1
     if routine in ZERO:
         pr['zero_draw'] = 1
     if case['meta'].get('onesign'):
@@ -381,13 +388,18 @@ def gen_case(sub, routines, scn_id, nmax=12):
         W[2, 3] = W[3, 2] = -1.0 if kind == 'sign' else 1.0
     if kind != 'sign' and rnd.random() < 0.08:
         # structureless networks (no partition beats one module): complete graph, star, complete bipartite
-        fam = rnd.choice(('complete', 'star', 'bipartite'))
+        fam = rnd.choice(('complete', 'star', 'bipartite', 'ring', 'ring'))
         W = np.zeros((n, n))
         h = rnd.randint(1, n - 1)
         for a in range(n):
             for b in range(n):
-                if a != b and (fam == 'complete' or (fam == 'star' and (a == 0 or b == 0)) or (fam == 'bipartite' and ((a < h) != (b < h)))):
+                if a != b and (fam == 'complete' or (fam == 'star' and (a == 0 or b == 0)) or (fam == 'bipartite' and ((a < h) != (b < h)))
+                               or (fam == 'ring' and (b == (a + 1) % n or (kind != 'dir' and a == (b + 1) % n)))):
                     W[a, b] = 1.0
+        if fam == 'ring' and p.get('B') != 'potts':
+            # exact ties everywhere; with one large uniform weight the routines' absolute 1e-10 gain threshold meets rounding noise
+            W = W * rnd.choice((1.0, 1e7, 3e7, 1e8))
+            weighted = 'float'
         lab = np.array([1 + (x % 2) for x in range(n)])
     if rnd.random() < 0.15 and p.get('B') != 'potts':
         for x in rnd.sample(range(n), rnd.randint(1, max(1, n // 3))):
